@@ -20,6 +20,22 @@
 //     one (non-zero) winding sign and all holes the opposite sign;
 //   - tags: (key index, value index) pairs resolved through the layer's own
 //     key / value tables give exactly the feature's tag map.
+//
+// Close-vertex alphabet (added after seed C33c): line strings, polygon shells
+// and holes in which CONSECUTIVE vertices coincide exactly, differ by less than
+// one tile unit (same integer unit, or straddling a unit border) or by exactly
+// one unit, at every position of the sequence (first / middle / last pair; for
+// rings every cyclic position x every start vertex, so the pair is also the
+// closing edge, and holes are emitted in reversed order). The statement promises
+// "the feature's projected integer coordinates", so zero-length segments may
+// NOT be dropped: every vertex must be decoded, and the independent decoder
+// demands a well-formed stream (declared counts == parameters present, stream
+// fully consumed).
+//
+// Second entry point: the public renderer.Encoder API (NewEncoder, StartFeature,
+// MoveTo, LineTo, XY / Point, ClosePath) is driven directly with every word of
+// integer deltas over a small alphabet containing (0,0), the 7 unit steps used
+// and two long steps, for multi-points, (multi-)line strings and (multi-)rings.
 package main
 
 import (
@@ -31,6 +47,7 @@ import (
 	"diagonal.works/b6"
 	pb "diagonal.works/b6/proto"
 	"diagonal.works/b6/renderer"
+	"github.com/golang/geo/r2"
 	"github.com/golang/geo/s1"
 	"github.com/golang/geo/s2"
 	"google.golang.org/protobuf/proto"
@@ -160,6 +177,15 @@ var kindName = []string{"point", "linestring", "polygon"}
 type ring struct {
 	v    []vtx
 	hole bool
+	// standin (non-nil only for rings with exactly repeated consecutive
+	// vertices): the same ring with every repeated vertex moved 0.05 units away.
+	// A loop with identical adjacent vertices is not a valid S2 loop and S2's
+	// nesting computation is undefined on it (observed: a shell with a repeated
+	// vertex no longer "contains" its hole), while EncodeTile reads nothing but
+	// Vertex(i) and IsHole(). The polygon is therefore built and validated from
+	// the stand-in, and the repeated vertices are then set in place (the loops
+	// keep the vertex slices they were given).
+	standin []vtx
 }
 
 type feat struct {
@@ -185,6 +211,10 @@ type instance struct {
 func showV(vs []vtx) string {
 	var s []string
 	for _, v := range vs {
+		if v.ox != 0.5 || v.oy != 0.5 {
+			s = append(s, fmt.Sprintf("(%d+%.2f,%d+%.2f)", v.x, v.ox, v.y, v.oy))
+			continue
+		}
 		s = append(s, fmt.Sprintf("(%d,%d)", v.x, v.y))
 	}
 	return "[" + strings.Join(s, " ") + "]"
@@ -299,12 +329,25 @@ func buildGeometry(t b6.Tile, f feat, holesFirst bool) (renderer.Geometry, strin
 	}
 	var shells, holes []*s2.Loop
 	nh := 0
+	var fixups []func()
 	for _, r := range f.rings {
-		ps := make([]s2.Point, len(r.v))
-		for i, v := range r.v {
+		r := r
+		src := r.v
+		if r.standin != nil {
+			src = r.standin
+		}
+		ps := make([]s2.Point, len(src))
+		for i, v := range src {
 			ps[i] = toS2(t, v)
 		}
 		l := s2.LoopFromPoints(ps)
+		if r.standin != nil {
+			fixups = append(fixups, func() {
+				for i, v := range r.v {
+					ps[i] = toS2(t, v)
+				}
+			})
+		}
 		if !l.IsNormalized() {
 			return nil, "generated ring is not counter-clockwise on the sphere: " + showV(r.v)
 		}
@@ -333,6 +376,9 @@ func buildGeometry(t b6.Tile, f feat, holesFirst bool) (renderer.Geometry, strin
 	}
 	if got != nh || p.NumLoops() != len(f.rings) {
 		return nil, fmt.Sprintf("S2 classifies %d of %d loops as holes, generator intended %d of %d", got, p.NumLoops(), nh, len(f.rings))
+	}
+	for _, fix := range fixups {
+		fix()
 	}
 	return renderer.NewPolygon(p), ""
 }
@@ -475,7 +521,8 @@ func checkGeometry(ty *tally, t b6.Tile, f feat, gf *pb.TileProto_Feature, exten
 			ty.violate(kn+":wrong-coordinates", "%s: command stream %v decodes to %s, projected vertices are %s (extent %d)", where, gf.Geometry, showI(d.parts[0].pts), showI(want), extent)
 			return
 		}
-		r.AddOutcome(fmt.Sprintf("%s:n%d:ok", kn, len(want)))
+		z := notePairs(r, d.parts[0].pts, false)
+		r.AddOutcome(fmt.Sprintf("%s:n%d%s:ok", kn, len(want), zsuffix(z)))
 	case kPolygon:
 		if len(d.parts) != len(f.rings) {
 			ty.violate("polygon:wrong-ring-count", "%s: command stream %v decodes to %d rings, want %d", where, gf.Geometry, len(d.parts), len(f.rings))
@@ -553,8 +600,67 @@ func checkGeometry(ty *tally, t b6.Tile, f feat, gf *pb.TileProto_Feature, exten
 		} else {
 			r.Count("info:outer-ring-surveyor-area-negative(spec-interior)", 1)
 		}
-		r.AddOutcome(fmt.Sprintf("polygon:rings%d:holes%d:ok", len(f.rings), nh))
+		z := 0
+		for _, p := range d.parts {
+			z += notePairs(r, p.pts, true)
+		}
+		r.AddOutcome(fmt.Sprintf("polygon:rings%d:holes%d%s:ok", len(f.rings), nh, zsuffix(z)))
 	}
+}
+
+// notePairs counts, over the DECODED vertex sequence of one part, the LineTo
+// segments with a (0,0) delta and with a unit (Chebyshev 1) delta, plus the
+// implicit closing segment of a ring, so that evidence shows how often the
+// close-vertex classes were really exercised. It returns the number of
+// zero-delta LineTo segments.
+func notePairs(r *kit.Result, p []ipt, closed bool) int {
+	abs := func(a int) int {
+		if a < 0 {
+			return -a
+		}
+		return a
+	}
+	cheb := func(a, b ipt) int {
+		dx, dy := abs(a.x-b.x), abs(a.y-b.y)
+		if dx > dy {
+			return dx
+		}
+		return dy
+	}
+	z, u := 0, 0
+	for i := 1; i < len(p); i++ {
+		switch cheb(p[i-1], p[i]) {
+		case 0:
+			z++
+		case 1:
+			u++
+		}
+	}
+	if z > 0 {
+		r.Count("info:decoded LineTo segments with delta (0,0) (consecutive vertices in one tile unit, all kept)", int64(z))
+	}
+	if u > 0 {
+		r.Count("info:decoded LineTo segments with a one-unit delta", int64(u))
+	}
+	if closed && len(p) > 1 {
+		switch cheb(p[len(p)-1], p[0]) {
+		case 0:
+			r.Count("info:decoded rings whose closing edge has zero length", 1)
+		case 1:
+			r.Count("info:decoded rings whose closing edge is one unit long", 1)
+		}
+	}
+	return z
+}
+
+func zsuffix(z int) string {
+	if z == 0 {
+		return ""
+	}
+	if z > 3 {
+		return ":zero-deltas4+"
+	}
+	return fmt.Sprintf(":zero-deltas%d", z)
 }
 
 func checkTags(ty *tally, f feat, gf *pb.TileProto_Feature, gl *pb.TileProto_Layer, where string) {
@@ -916,10 +1022,525 @@ func tagFamilies(t b6.Tile, thorough bool, maps []map[string]string) []family {
 	return fams
 }
 
+// ---------------------------------------------------------------- close-vertex alphabet
+
+// rel is the relation of a vertex to its predecessor, as a real step (in tile
+// units) of a along the frame's u axis and b along its w axis. The base offset
+// of every anchor is (.5,.5); the step values are chosen such that no sum of up
+// to 4 steps puts a vertex closer than 0.06 units to a unit border (checked as
+// a precondition through expect()).
+type rel struct {
+	name string
+	a, b float64
+	far  bool // jump to the next far-away anchor (lines only)
+}
+
+var closeRels = []rel{
+	{name: "same"},                       // (a) exactly the same position (bitwise identical S2 point)
+	{name: "sub", a: .30, b: .20},        // (b) 0.36 units away, same unit from an anchor
+	{name: "subNear", a: .04, b: -.03},   // (b) 0.05 units away
+	{name: "straddle", a: .67},           // (b') 0.67 units away, the next unit from an anchor
+	{name: "one", a: 1},                  // (c) exactly one unit along u
+	{name: "oneDiag", a: 1, b: 1},        // (c) one unit in both coordinates
+	{name: "oneDiagNeg", a: 1, b: -1},    // (c) one unit in both coordinates, opposite signs
+	{name: "far", far: true},             // ordinary long segment
+}
+
+const nClose = 7 // closeRels[:nClose] are the close relations
+
+type rp struct{ x, y float64 }
+
+func vAt(p rp) vtx {
+	x, y := math.Floor(p.x), math.Floor(p.y)
+	return vtx{x: int(x), y: int(y), ox: p.x - x, oy: p.y - y}
+}
+
+var axisDirs = []rp{{1, 0}, {0, 1}, {-1, 0}, {0, -1}}
+
+func step(p rp, r rel, u, w rp) rp {
+	return rp{p.x + r.a*u.x + r.b*w.x, p.y + r.a*u.y + r.b*w.y}
+}
+
+// pairClass classifies a consecutive generated vertex pair.
+func pairClass(a, b vtx) string {
+	if a == b {
+		return "identical"
+	}
+	dx := float64(b.x-a.x) + b.ox - a.ox
+	dy := float64(b.y-a.y) + b.oy - a.oy
+	d := math.Hypot(dx, dy)
+	same := a.x == b.x && a.y == b.y
+	adx, ady := math.Abs(float64(b.x-a.x)), math.Abs(float64(b.y-a.y))
+	switch {
+	case same:
+		return "sub-unit,same-integer"
+	case d < 0.999:
+		return "sub-unit,different-integer"
+	case adx <= 1 && ady <= 1 && math.Abs(math.Abs(dx)-adx) < 1e-9 && math.Abs(math.Abs(dy)-ady) < 1e-9:
+		return "exactly-one-unit"
+	case adx <= 1 && ady <= 1:
+		return "adjacent-integer"
+	}
+	return "far"
+}
+
+// notePositions records which close classes were generated at which position
+// of the sequence (first / middle / last pair, closing edge of a ring).
+func notePositions(r *kit.Result, what string, vs []vtx, closed bool) {
+	n := len(vs)
+	for i := 1; i < n; i++ {
+		c := pairClass(vs[i-1], vs[i])
+		if c == "far" {
+			continue
+		}
+		pos := "middle"
+		if i == 1 {
+			pos = "first"
+		} else if i == n-1 {
+			pos = "last"
+		}
+		r.Count("generated:"+what+":"+c+"@"+pos+"-pair", 1)
+	}
+	if closed && n > 1 {
+		if c := pairClass(vs[n-1], vs[0]); c != "far" {
+			r.Count("generated:"+what+":"+c+"@closing-edge", 1)
+		}
+	}
+}
+
+var lineAnchors = []rp{{1365.5, 1365.5}, {2730.5, 1400.5}, {2700.5, 2730.5}, {1300.5, 2800.5}, {700.5, 600.5}}
+
+// closeLine builds the line string for a word of relations (one per gap) in
+// the frame (u,w) = (axisDirs[frame], axisDirs[frame+1]).
+func closeLine(frame int, word []int) []vtx {
+	u, w := axisDirs[frame%4], axisDirs[(frame+1)%4]
+	p := lineAnchors[0]
+	jumps := 0
+	vs := []vtx{vAt(p)}
+	for _, ri := range word {
+		r := closeRels[ri]
+		if r.far {
+			jumps++
+			p = lineAnchors[jumps%len(lineAnchors)]
+		} else {
+			p = step(p, r, u, w)
+		}
+		vs = append(vs, vAt(p))
+	}
+	return vs
+}
+
+func wordName(word []int) string {
+	var s []string
+	for _, ri := range word {
+		s = append(s, closeRels[ri].name)
+	}
+	return strings.Join(s, ",")
+}
+
+// eachWord enumerates all words of length n over [0,k) in lexicographic order.
+func eachWord(n, k int, f func([]int)) {
+	w := make([]int, n)
+	var rec func(i int)
+	rec = func(i int) {
+		if i == n {
+			f(w)
+			return
+		}
+		for d := 0; d < k; d++ {
+			w[i] = d
+			rec(i + 1)
+		}
+	}
+	rec(0)
+}
+
+// clusterRing: the axis-aligned square with corners at the window fractions
+// lo / hi, in geographic counter-clockwise order (down, right, up, left on
+// screen), with a cluster of close vertices inserted after corner `corner`
+// (none if corner < 0): every cluster member is a step from its predecessor
+// with a > 0 along the outgoing edge (u) and b along the direction back to the
+// previous corner (w), so the ring stays simple (the chain corner -> cluster ->
+// next corner is monotone along u). `same` members repeat the position.
+func clusterRing(tw tileWin, lo, hi float64, corner int, pat []int, rot int) (out []vtx, standin []vtx) {
+	at := func(f float64, off int) float64 { return float64(off) + math.Round(f*float64(tw.w-1)) + .5 }
+	c := []rp{{at(lo, tw.offx), at(lo, tw.offy)}, {at(lo, tw.offx), at(hi, tw.offy)}, {at(hi, tw.offx), at(hi, tw.offy)}, {at(hi, tw.offx), at(lo, tw.offy)}}
+	sgn := func(a, b rp) rp {
+		s := func(d float64) float64 {
+			if d > 0 {
+				return 1
+			} else if d < 0 {
+				return -1
+			}
+			return 0
+		}
+		return rp{s(b.x - a.x), s(b.y - a.y)}
+	}
+	var vs, st []vtx
+	dup := false
+	for j := 0; j < 4; j++ {
+		vs = append(vs, vAt(c[j]))
+		st = append(st, vAt(c[j]))
+		if j != corner {
+			continue
+		}
+		u, w := sgn(c[j], c[(j+1)%4]), sgn(c[j], c[(j+3)%4])
+		p, q := c[j], c[j]
+		for _, ri := range pat {
+			r := closeRels[ri]
+			p = step(p, r, u, w)
+			if r.a == 0 && r.b == 0 {
+				dup = true
+				r = closeRels[2] // stand-in: 0.05 units away
+			}
+			q = step(q, r, u, w)
+			vs = append(vs, vAt(p))
+			st = append(st, vAt(q))
+		}
+	}
+	out = make([]vtx, len(vs))
+	for i := range vs {
+		out[i] = vs[(i+rot)%len(vs)]
+	}
+	if dup {
+		standin = make([]vtx, len(st))
+		for i := range st {
+			standin[i] = st[(i+rot)%len(st)]
+		}
+	}
+	return out, standin
+}
+
+func ringPatterns(thorough bool) [][]int {
+	var pats [][]int
+	for i := 0; i < nClose; i++ {
+		pats = append(pats, []int{i})
+	}
+	second := []int{0, 1, 3, 4} // same, sub, straddle, one
+	if thorough {
+		second = []int{0, 1, 2, 3, 4, 5, 6}
+	}
+	for _, i := range second {
+		for _, j := range second {
+			pats = append(pats, []int{i, j})
+		}
+	}
+	return pats
+}
+
+// closeFamilies: the close-vertex geometry families through EncodeTile.
+func closeFamilies(t b6.Tile, thorough bool, maps []map[string]string) []family {
+	var fams []family
+	maxGaps := 3
+	if thorough {
+		maxGaps = 4
+	}
+	fams = append(fams, family{name: "close-lines", gen: func(emit func(instance)) {
+		k := 0
+		for gaps := 1; gaps <= maxGaps; gaps++ {
+			for frame := 0; frame < 4; frame++ {
+				eachWord(gaps, len(closeRels), func(word []int) {
+					allFar := true
+					for _, ri := range word {
+						if !closeRels[ri].far {
+							allFar = false
+						}
+					}
+					if allFar {
+						return // no close pair: covered by the lattice lines
+					}
+					k++
+					emit(single(fmt.Sprintf("close line frame%d [%s]", frame, wordName(word)),
+						feat{kind: kLine, pts: closeLine(frame, word), tags: maps[k%len(maps)], id: uint64(k % 3)}))
+				})
+			}
+		}
+	}})
+	pats := ringPatterns(thorough)
+	type role struct {
+		name                   string
+		shellCluster, hole     bool
+		holeCluster, holesFrst bool
+	}
+	roles := []role{
+		{name: "shell", shellCluster: true},
+		{name: "hole-in-plain-shell", hole: true, holeCluster: true},
+		{name: "hole-in-plain-shell/holes-first", hole: true, holeCluster: true, holesFrst: true},
+		{name: "shell-with-plain-hole", shellCluster: true, hole: true},
+		{name: "shell+hole/holes-first", shellCluster: true, hole: true, holeCluster: true, holesFrst: true},
+	}
+	if thorough {
+		roles = append(roles,
+			role{name: "shell-with-plain-hole/holes-first", shellCluster: true, hole: true, holesFrst: true},
+			role{name: "shell+hole", shellCluster: true, hole: true, holeCluster: true})
+	}
+	for wi, tw := range windowsFor(t) {
+		tw := tw
+		fams = append(fams, family{name: fmt.Sprintf("close-rings/window%d", wi), gen: func(emit func(instance)) {
+			k := 0
+			for _, ro := range roles {
+				for corner := 0; corner < 4; corner++ {
+					for _, pat := range pats {
+						n := 4 + len(pat)
+						for rot := 0; rot < n; rot++ {
+							var rings []ring
+							if ro.shellCluster {
+								v, st := clusterRing(tw, .1, .9, corner, pat, rot)
+								rings = append(rings, ring{v: v, standin: st})
+							} else {
+								v, _ := clusterRing(tw, .05, .95, -1, nil, rot%4)
+								rings = append(rings, ring{v: v})
+							}
+							if ro.hole {
+								if ro.holeCluster {
+									// the hole's cluster sits at another corner and start vertex than the shell's
+									v, st := clusterRing(tw, .3, .7, (corner+1)%4, pat, (rot+2)%n)
+									rings = append(rings, ring{v: v, standin: st, hole: true})
+								} else {
+									v, _ := clusterRing(tw, .3, .7, -1, nil, (rot+1)%4)
+									rings = append(rings, ring{v: v, hole: true})
+								}
+							}
+							k++
+							emit(instance{desc: fmt.Sprintf("close ring %s corner%d [%s] start%d", ro.name, corner, wordName(pat), rot), holesFirst: ro.holesFrst,
+								layers: []layerSpec{{name: "l", feats: []feat{{kind: kPolygon, rings: rings, tags: maps[k%len(maps)]}}}}})
+						}
+					}
+				}
+			}
+		}})
+	}
+	return fams
+}
+
+// ---------------------------------------------------------------- Encoder API entry point
+
+type ipart struct {
+	pts    []ipt
+	closed bool
+}
+
+var apiDeltas = []ipt{{0, 0}, {1, 0}, {0, 1}, {-1, 0}, {0, -1}, {1, 1}, {-1, -1}, {1, -1}, {100, 37}, {-50, -200}}
+
+var apiKinds = []string{"multipoint", "linestring", "ring"}
+
+// fractions used by the Point(r2.Point) form: consecutive vertices get
+// different sub-unit positions, so a (0,0) delta is "distinct positions in one
+// unit" there and "the same position" in the XY form.
+var apiFracs = [][2]float64{{.25, .25}, {.75, .70}, {.5, .5}}
+
+func apiPath(word []int, start ipt) []ipt {
+	p := start
+	out := []ipt{p}
+	for _, d := range word {
+		p = ipt{p.x + apiDeltas[d].x, p.y + apiDeltas[d].y}
+		out = append(out, p)
+	}
+	return out
+}
+
+// checkAPI drives the Encoder directly: one feature of the given kind with the
+// given parts (tile-local integer coordinates), through XY or Point, and
+// demands that the independent decoder reproduces exactly the parts.
+func checkAPI(ty *tally, t b6.Tile, kind int, usePoint bool, parts []ipart, desc string) {
+	r := ty.r
+	r.Evals++
+	kn := "api-" + apiKinds[kind]
+	ox, oy := int(t.X)<<renderer.TileExtent, int(t.Y)<<renderer.TileExtent
+	e := renderer.NewEncoder(ox, oy, "api", 1<<renderer.TileExtent)
+	f := e.StartFeature()
+	f.Type = []pb.TileProto_GeomType{pb.TileProto_POINT, pb.TileProto_LINESTRING, pb.TileProto_POLYGON}[kind].Enum()
+	for _, pt := range parts {
+		for _, p := range pt.pts {
+			if p.x < 0 || p.y < 0 || p.x >= 1<<renderer.TileExtent || p.y >= 1<<renderer.TileExtent {
+				ty.violate("harness:precondition", "Encoder API %s: generated vertex %v outside the tile (%s)", apiKinds[kind], p, desc)
+				return
+			}
+		}
+	}
+	nput := 0
+	put := func(p ipt) {
+		if usePoint {
+			fr := apiFracs[nput%len(apiFracs)]
+			e.Point(r2.Point{X: float64(ox+p.x) + fr[0], Y: float64(oy+p.y) + fr[1]})
+		} else {
+			e.XY(ox+p.x, oy+p.y)
+		}
+		nput++
+	}
+	var want []ipart
+	if kind == kPoint {
+		e.MoveTo(len(parts[0].pts))
+		for _, p := range parts[0].pts {
+			put(p)
+			want = append(want, ipart{pts: []ipt{p}})
+		}
+	} else {
+		for _, pt := range parts {
+			e.MoveTo(1)
+			put(pt.pts[0])
+			e.LineTo(len(pt.pts) - 1)
+			for _, p := range pt.pts[1:] {
+				put(p)
+			}
+			if pt.closed {
+				e.ClosePath()
+			}
+			want = append(want, pt)
+		}
+	}
+	e.Tag("k", "v")
+	where := func() string {
+		var s []string
+		for _, w := range want {
+			s = append(s, fmt.Sprintf("%s closed=%v", showI(w.pts), w.closed))
+		}
+		form := "XY"
+		if usePoint {
+			form = "Point"
+		}
+		return fmt.Sprintf("Encoder API (%s form, origin tile %v) %s parts {%s} (%s)", form, t, apiKinds[kind], strings.Join(s, "; "), desc)
+	}
+	bytes, err := proto.Marshal(&pb.TileProto{Layers: []*pb.TileProto_Layer{e.Layer()}})
+	if err != nil {
+		ty.violate("marshal:error", "%s: proto.Marshal: %v", where(), err)
+		return
+	}
+	var tp pb.TileProto
+	if err := proto.Unmarshal(bytes, &tp); err != nil {
+		ty.violate("marshal:error", "%s: proto.Unmarshal: %v", where(), err)
+		return
+	}
+	if len(tp.Layers) != 1 || len(tp.Layers[0].Features) != 1 {
+		ty.violate(kn+":features:wrong-count", "%s: layer/feature count wrong", where())
+		return
+	}
+	g := tp.Layers[0].Features[0].Geometry
+	d, derr := decodeGeometry(g)
+	if derr != "" {
+		ty.violate(kn+":undecodable:"+derr, "%s: command stream %v: %s", where(), g, derr)
+		return
+	}
+	if len(d.parts) != len(want) {
+		ty.violate(kn+":wrong-structure", "%s: command stream %v decodes to %d parts, want %d", where(), g, len(d.parts), len(want))
+		return
+	}
+	z := 0
+	for i, w := range want {
+		if d.parts[i].closed != w.closed {
+			ty.violate(kn+":wrong-structure", "%s: command stream %v: part %d closed=%v", where(), g, i, d.parts[i].closed)
+			return
+		}
+		if !eqI(d.parts[i].pts, w.pts) {
+			ty.violate(kn+":wrong-coordinates", "%s: command stream %v: part %d decodes to %s", where(), g, i, showI(d.parts[i].pts))
+			return
+		}
+		if kind != kPoint {
+			z += notePairs(r, d.parts[i].pts, w.closed)
+		}
+	}
+	np := 0
+	for _, w := range want {
+		np += len(w.pts)
+	}
+	if np > 6 {
+		np = 6
+	}
+	r.AddOutcome(fmt.Sprintf("%s:parts%d:n%d%s:ok", kn, map[bool]int{false: 1, true: 2}[len(want) > 1 && kind != kPoint], np, zsuffix(z)))
+}
+
+var apiTrailer = []ipt{{5, 5}, {7, 9}, {7, 9}, {6, 9}}
+
+// apiCases: for every (origin tile, kind, XY/Point form) one case enumerating
+// every delta word of 1..maxGaps gaps, alone and followed by a second part
+// (which must stay in sync); thorough adds all pairs of parts of <= 2 gaps.
+func apiCases(thorough bool) []caseSpec {
+	maxGaps := 3
+	if thorough {
+		maxGaps = 4
+	}
+	var cs []caseSpec
+	start := ipt{1000, 1000}
+	for _, t := range []b6.Tile{{Z: 0}, {Z: 22, X: 2095734, Y: 1427743}} {
+		for kind := range apiKinds {
+			for form := 0; form < 2; form++ {
+				t, kind, usePoint := t, kind, form == 1
+				cs = append(cs, caseSpec{t: t, name: fmt.Sprintf("api/%s/form%d", apiKinds[kind], form), run: func(ty *tally) (n int64, first string) {
+					one := func(parts []ipart, desc string) {
+						n++
+						if n == 1 {
+							first = fmt.Sprintf("Encoder API %s %s %s", apiKinds[kind], showI(parts[0].pts), desc)
+						}
+						checkAPI(ty, t, kind, usePoint, parts, desc)
+					}
+					closed := kind == kPolygon
+					for gaps := 1; gaps <= maxGaps; gaps++ {
+						eachWord(gaps, len(apiDeltas), func(word []int) {
+							p := ipart{pts: apiPath(word, start), closed: closed}
+							one([]ipart{p}, "single part")
+							if kind != kPoint {
+								one([]ipart{p, {pts: apiTrailer, closed: closed}}, "followed by a second part")
+							}
+						})
+					}
+					if thorough && kind != kPoint {
+						for g1 := 1; g1 <= 2; g1++ {
+							for g2 := 1; g2 <= 2; g2++ {
+								eachWord(g1, len(apiDeltas), func(w1 []int) {
+									p1 := ipart{pts: apiPath(w1, start), closed: closed}
+									eachWord(g2, len(apiDeltas), func(w2 []int) {
+										one([]ipart{p1, {pts: apiPath(w2, ipt{2000, 1500}), closed: closed}}, "two enumerated parts")
+									})
+								})
+							}
+						}
+					}
+					return
+				}})
+			}
+		}
+	}
+	return cs
+}
+
 type caseSpec struct {
 	t    b6.Tile
-	fam  family
 	name string
+	run  func(ty *tally) (instances int64, first string)
+}
+
+func famCase(t b6.Tile, f family, name string) caseSpec {
+	return caseSpec{t: t, name: name, run: func(ty *tally) (n int64, first string) {
+		f.gen(func(in instance) {
+			n++
+			if n == 1 {
+				first = in.layers[0].feats[0].String() + " (" + in.desc + ")"
+			}
+			ft := in.layers[0].feats[0]
+			if strings.HasPrefix(in.desc, "close ") {
+				if ft.kind == kLine {
+					notePositions(ty.r, "line", ft.pts, false)
+				} else {
+					for _, rg := range ft.rings {
+						// emission order of the encoder's documented scheme: shells
+						// forwards, holes v0, v[n-1], ..., v1 (evidence counters
+						// only; the oracle accepts any rotation / direction)
+						if !rg.hole {
+							notePositions(ty.r, "shell", rg.v, true)
+							continue
+						}
+						em := []vtx{rg.v[0]}
+						for i := len(rg.v) - 1; i > 0; i-- {
+							em = append(em, rg.v[i])
+						}
+						notePositions(ty.r, "hole(reversed emission)", em, true)
+					}
+				}
+			}
+			checkInstance(ty, t, in)
+		})
+		return
+	}}
 }
 
 func buildCases(tier string) ([]caseSpec, string) {
@@ -936,31 +1557,39 @@ func buildCases(tier string) ([]caseSpec, string) {
 	var cs []caseSpec
 	for _, t := range tiles {
 		for _, f := range geometryFamilies(t, thorough, maps) {
-			cs = append(cs, caseSpec{t: t, fam: f, name: "geometry/" + f.name})
+			cs = append(cs, famCase(t, f, "geometry/"+f.name))
+		}
+		for _, f := range closeFamilies(t, thorough, maps) {
+			cs = append(cs, famCase(t, f, "geometry/"+f.name))
 		}
 	}
+	cs = append(cs, apiCases(thorough)...)
 	tagTiles := []b6.Tile{{Z: 0}, {Z: 14, X: 8185, Y: 5577}}
 	for _, t := range tagTiles {
 		for _, f := range tagFamilies(t, thorough, maps) {
-			cs = append(cs, caseSpec{t: t, fam: f, name: f.name})
+			cs = append(cs, famCase(t, f, f.name))
 		}
 	}
-	// simplest first: stable order by family class (points+lines, triangles, holes, multi, tags), keeping tile order inside
+	// simplest first: stable order by family class (Encoder API words, points+lines, close lines, triangles, close rings, holes, multi, tags), keeping tile order inside
 	rank := func(n string) int {
-		for i, p := range []string{"geometry/points", "geometry/triangles", "geometry/holes", "geometry/multi", "tags/"} {
+		for i, p := range []string{"api/multipoint", "api/linestring", "api/ring", "geometry/points", "geometry/close-lines", "geometry/triangles", "geometry/close-rings", "geometry/holes", "geometry/multi", "tags/"} {
 			if strings.HasPrefix(n, p) {
 				return i
 			}
 		}
-		return 9
+		return 99
 	}
 	sort.SliceStable(cs, func(i, j int) bool { return rank(cs[i].name) < rank(cs[j].name) })
 	lineMax, nf := 3, 2
 	if thorough {
 		lineMax, nf = 4, 3
 	}
-	bound := fmt.Sprintf("%d tiles at zooms %v (corner, far-corner, London and south-east tiles per zoom); per tile: 16 points and all line strings of 1..%d vertices (adjacent distinct) on the 4x4 pixel lattice {0,1365,2730,4095}^2; per polygon window (whole tile from zoom 5, a 4096>>(5-z) px window at 3 positions below): all non-degenerate lattice triangles x 3 start vertices, square and L-shaped outers x start vertices x every assignment of {none,triangle,quad,concave pentagon} holes to the 4 (3) hole slots x loop order, two-shell polygons with holes / island in hole / hole in island; %d sub-pixel offsets; tag maps: all 27 partial maps {a,b,c}->{x,y} + 5 awkward-string maps, rotated over geometry cases and ALL %d-tuples of maps over %d-feature layers for every combination of geometry kinds (2 tiles); %d cases",
-		len(tiles), zooms, lineMax, map[bool]int{false: 1, true: 3}[thorough], nf, nf, len(cs))
+	bound := fmt.Sprintf("%d tiles at zooms %v (corner, far-corner, London and south-east tiles per zoom); per tile: 16 points and all line strings of 1..%d vertices (adjacent distinct) on the 4x4 pixel lattice {0,1365,2730,4095}^2; per polygon window (whole tile from zoom 5, a 4096>>(5-z) px window at 3 positions below): all non-degenerate lattice triangles x 3 start vertices, square and L-shaped outers x start vertices x every assignment of {none,triangle,quad,concave pentagon} holes to the 4 (3) hole slots x loop order, two-shell polygons with holes / island in hole / hole in island; %d sub-pixel offsets; tag maps: all 27 partial maps {a,b,c}->{x,y} + 5 awkward-string maps, rotated over geometry cases and ALL %d-tuples of maps over %d-feature layers for every combination of geometry kinds (2 tiles); "+
+		"CLOSE VERTICES (offset .5 anchors, every tile): line strings = every word of 1..%d gap relations over {same position, 0.36 u apart (same unit), 0.05 u apart, 0.67 u apart (next unit), exactly one unit along the axis, one unit in both coordinates (+,+) and (+,-), far jump} with at least one close relation x 4 axis frames (+x,+y,-x,-y); rings = a square (geographic counter-clockwise) with a cluster of 1 or 2 extra vertices after one corner, every corner x every cluster word (7 single + %d double relation words) x EVERY start vertex (so the close pair is the first, a middle, the last emitted pair and the closing edge), as shell alone, as hole of a plain shell, as shell with a plain hole, and as shell+hole both clustered, x loop order (%d role variants), per polygon window; "+
+		"ENCODER API (NewEncoder/StartFeature/MoveTo/LineTo/XY|Point/ClosePath driven directly, origins tile 0/0/0 and a zoom-22 tile): every word of 1..%d deltas over {(0,0),(1,0),(0,1),(-1,0),(0,-1),(1,1),(-1,-1),(1,-1),(100,37),(-50,-200)} as multi-point (MoveTo n), line string and closed ring, alone and followed by a second part containing a repeated vertex%s, through XY (same position) and through Point (distinct sub-unit positions); %d cases",
+		len(tiles), zooms, lineMax, map[bool]int{false: 1, true: 3}[thorough], nf, nf,
+		lineMax, len(ringPatterns(thorough))-nClose, map[bool]int{false: 5, true: 7}[thorough],
+		lineMax, map[bool]string{false: "", true: " plus all pairs of parts of 1..2 deltas each"}[thorough], len(cs))
 	return cs, bound
 }
 
@@ -968,7 +1597,8 @@ func main() {
 	kit.Main(&kit.Check{
 		ID:    "C33",
 		Level: "exploration",
-		Rule: "a case = (tile, family); it enumerates every instance of the family (see bound), builds the renderer.Tile, calls renderer.EncodeTile, proto-marshals and re-parses the tile and decodes every feature with an independent MVT command decoder. " +
+		Rule: "a case = (tile, family); it enumerates every instance of the family (see bound), builds the renderer.Tile, calls renderer.EncodeTile (families api/*: drives the public renderer.Encoder calls MoveTo/LineTo/XY|Point/ClosePath directly with tile-local integer vertex words), proto-marshals and re-parses the tile and decodes every feature with an independent MVT command decoder written from vector-tile-spec 2.1 4.3 (command id + count, zigzag parameter pairs, cursor from the tile origin); the stream must be well-formed: every declared count has its parameter pairs present, nothing but known commands, ClosePath count 1 on an open path, stream fully consumed. " +
+			"Consecutive vertices that coincide, share an integer tile unit or differ by one unit are part of the alphabet at every position (first/middle/last pair, a ring's closing edge, holes in reversed emission); the statement promises the feature's projected integer coordinates, so zero-length segments may NOT be dropped: every vertex must be decoded (for the Encoder API: exactly the parts and vertices handed in, in order). " +
 			"Oracle: decoded integer coordinates == floor of the independently computed slippy-map projection of each vertex relative to the tile origin at the layer's extent (points: one MoveTo; lines: in order; polygon rings: up to rotation/direction, every ring closed), outer rings share one non-zero winding sign and holes have the opposite sign, tag index pairs resolve through the layer's key/value tables to exactly the feature's tag map. " +
 			"Every instance is non-trivial (it encodes at least one feature) and instances are distinct by construction.",
 		Assumptions: []string{
@@ -977,6 +1607,8 @@ func main() {
 			"rings have fewer than 1000 vertices (above that EncodeTile intentionally simplifies rings, which by design does not reproduce every vertex)",
 			"a LineTo with count 0 (emitted for a 1-vertex line string) is tolerated by the decoder and counted, since the statement only speaks about coordinates",
 			"tag values are strings (renderer.Feature.Tags is map[string]string)",
+			"rings with an exactly repeated vertex are not valid S2 loops and S2's nesting computation is undefined on them (a shell with a repeated vertex was observed not to contain its hole), while EncodeTile only reads Vertex(i) and IsHole(): the s2.Polygon is built and validated from a stand-in ring whose repeated vertex is 0.05 units away, then the vertex is set to the repeated position in place; line strings with repeated vertices are passed as they are",
+			"Encoder API words stay inside the tile (coordinates 0..4095 relative to the origin); through Point the vertices carry fractions .25/.70/.5 and the expected integer is the floor",
 		},
 		Build: func(tier string) (kit.Space, string) {
 			cases, bound := buildCases(tier)
@@ -984,15 +1616,7 @@ func main() {
 				var r kit.Result
 				c := cases[i]
 				ty := &tally{r: &r, perClass: map[string]int{}}
-				n := int64(0)
-				var first string
-				c.fam.gen(func(in instance) {
-					n++
-					if n == 1 {
-						first = in.layers[0].feats[0].String()
-					}
-					checkInstance(ty, c.t, in)
-				})
+				n, first := c.run(ty)
 				r.Nontrivial = n > 0
 				r.Distinct = n
 				if i%53 == 0 {
